@@ -1,13 +1,14 @@
 """C08 - driver-event broadcast: events arrive in order, intact; any loss is reported."""
 import hashlib
 import json
+import os
 
+from vlib import core
 from vlib.term import z, to_coq
 
 ID = 'C08'
 PROP_FILE = 'Props/C08.v'
-EXTRA_PROP_FILES = ['Props/C08Src.v']     # K1 source tie (tools/props/src_translate.py), see docs/reports/SRC.md
-EVAL_FILES = ['Oracle/C08Oracle.v', 'Proofs/BroadcastThreadsProofs.v']
+EVAL_FILES = ['Oracle/C08Oracle.v', 'Proofs/BroadcastThreadsProofs.v', 'Proofs/BroadcastOrder.v']
 CRATES = ['c08']
 MODES = ['debug', 'release']
 IMPORTS = ('Require Import V.Base.MachineInt V.Model.LogBase V.Model.Broadcast V.Model.BroadcastThreads V.Model.BroadcastShow V.Spec.Lossy V.Spec.LossyJump V.Oracle.C08Oracle.')
@@ -15,7 +16,12 @@ RULE = ('sequential histories of transmit / receive / dump on a real BroadcastTr
         'trailer counters are preset to c0: c0 in {0, 2^31-2cap .. 2^31+2cap, 2^32-2cap .. 2^32+2cap, 2^40, random multiples of 8}; cap 32..4096 '
         '(and 65536 for the 4096-byte scratch limit); message lengths 0..cap/8 at every alignment; patterns: ping-pong, bursts that leave the '
         'backlog at cap-8 / cap / cap+8 / several laps, padding at every wrap alignment, late-joining receiver, random mixes, and a malformed stream '
-        '(type <= 0, over-long, types unknown to from_command_id); debug and release builds. Non-trivial = the receiver is lapped at least once, '
+        '(type <= 0, over-long, types unknown to from_command_id); debug and release builds. Scheduled two-thread runs (one transmitter, one copying '
+        'receiver under the deterministic scheduler, access traces compared with the pc-machine model): no / one / two pre-emptions, random bursts, '
+        'the record in flight being the first after a padded wrap, and - third round - the receiver stopped at every access inside receive_next while '
+        'the transmitter, itself stopped at every access of a transmit, overwrites the record under its cursor or behind `latest` (incl. the family of '
+        'the recorded witness of lap-inside-receive-next). The model version (W64 = receive_next as found, W64R = fixes/C08-receive-next-revalidate.diff) '
+        'is read from the source of the repository under test. Non-trivial = the receiver is lapped at least once, '
         'or padding is inserted, or the counters pass 2^31; distinct = distinct histories')
 ASSUMPTIONS = [
     'one transmitter, one receiver; in the sequential part every transmit / receive runs to completion before the next starts',
@@ -23,7 +29,35 @@ ASSUMPTIONS = [
     'the tail counter handed over by the driver is a multiple of 8 (record alignment)',
 ]
 
+
 LEGAL = list(range(3841, 3851)) + list(range(1, 15))
+
+_VERSION = {}
+
+
+def version():
+    """Which receive_next the repository under test has (K1, read from the source on every run; a wrong answer makes every
+    scheduled trace differ): 'W64R' = fixes/C08-receive-next-revalidate.diff applied (the header words are validated before they
+    are used: two do_validate calls in receive_next), 'W64' = the code without it."""
+    if 'w' not in _VERSION:
+        path = os.path.join(core.REPO, 'src', 'concurrent', 'broadcast', 'broadcast_receiver.rs')
+        try:
+            src = open(path).read()
+            body = src[src.index('pub fn receive_next'):src.index('pub fn validate')]
+            _VERSION['w'] = 'W64R' if body.count('self.do_validate(') >= 2 else 'W64'
+        except (OSError, ValueError):
+            _VERSION['w'] = 'W64'
+    return _VERSION['w']
+
+
+# K1 source tie (tools/props/src_translate.py, docs/reports/SRC.md).  Its receive_next fragments and the assembly
+# receive_next_src (= receive_next W64) are keyed to receive_next as found; on a tree with
+# fixes/C08-receive-next-revalidate.diff one fragment has a new shape (length word at offset 0 read before the second
+# validation), so the tie is not run there until it is re-keyed (to do, see docs/reports/C08.md) - said in the evidence.
+EXTRA_PROP_FILES = ['Props/C08Src.v'] if version() == 'W64' else []
+if version() != 'W64':
+    ASSUMPTIONS.append('the K1 source tie Props/C08Src.v (fragments of receive_next as found) is NOT run on this tree: receive_next has the '
+                       'shape of fixes/C08-receive-next-revalidate.diff and the tie has to be re-keyed (model version W64R is used)')
 
 
 def mode_c(mode):
@@ -247,12 +281,93 @@ def _wrap_cases(rng, big):
     return cases
 
 
+def _steps_list(cap, c0, pre, msgs):
+    """shared accesses of the transmitter thread per message (9 with a padding record, 7 without)"""
+    sim = Sim(cap, c0)
+    for m in pre:
+        sim.tx(m[0], m[2])
+    out = []
+    for m in msgs:
+        t0 = sim.tail
+        sim.tx(m[0], m[2])
+        out.append(9 if sim.latest != t0 else 7)
+    return out
+
+
+def _lapin_cases(rng, big):
+    """the receiver is stopped at every point INSIDE receive_next (after the tail read, after the validation, after the
+    read of `latest`, between the header reads) while the transmitter overwrites the record it is looking at - or the
+    record `latest` points at - and is itself stopped at every point of a transmit (tail-intent published, record half
+    written, `latest` not yet updated ...).  On the code without fixes/C08-receive-next-revalidate.diff many of these runs
+    are in the class lap-inside-receive-next; the repaired code must report UnableToKeepUp and recover on all of them."""
+    cases = []
+    for cap in (32, 64):
+        mx = cap // 8
+        fill = cap // 16                      # maximal records that fill the buffer
+        for c0 in ((0, 2**31 - cap, 2**40 + 8) if big else (rng.choice([0, 2**31 - cap, 2**40 + 8]),)):
+            tys = rng.sample(LEGAL, len(LEGAL))
+            pre = [[tys.pop(), 900, rng.choice([mx, mx, 0])]]
+            nmsg = 2 * fill + 3
+            msgs = [[tys.pop(), 10 + i, rng.choice([mx, mx, mx, rng.randrange(0, mx + 1)])] for i in range(nmsg)]
+            nrecv = 3
+            steps = _steps_list(cap, c0, pre, msgs)
+            cum = [0]
+            for st in steps:
+                cum.append(cum[-1] + st)
+            nt = cum[-1]
+            base = {'kind': 'conc', 'cap': cap, 'c0': c0, 'pre': pre, 'msgs': msgs, 'nrecv': nrecv}
+            hot, cold = [], []
+            for j in range(0, nmsg - 1):
+                for d in range(0, steps[j]):
+                    a = cum[j] + d
+                    for b in range(1, 8):
+                        for c in range(1, sum(steps[j:j + fill + 2]) + 1):
+                            sc = [0] * a + [1] * b + [0] * c + [1] * (13 * nrecv) + [0] * nt
+                            # hot: the transmitter is inside a transmit when the receiver looks, the receiver is past its
+                            # validation, the transmitter then goes a little further
+                            (hot if (2 <= b <= 5 and (d >= 2 or c <= 10)) else cold).append(sc)
+            if big:
+                pick = rng.sample(hot, min(len(hot), 500)) + rng.sample(cold, min(len(cold), 250))
+            else:
+                pick = rng.sample(hot, min(len(hot), 36)) + rng.sample(cold, min(len(cold), 12))
+            for sc in pick:
+                cases.append(dict(base, sched=sc))
+    # the family of the recorded witness (found by scanning all schedules of the shape above on the real code): the
+    # transmitter is stopped two accesses before the end of a transmit that wraps (record written at offset 0, `latest`
+    # still pointing at the record it has just overwritten), the lapped receiver reads `latest` and then a length word
+    # that is a payload byte.  Whether the garbage makes the receiver deliver a bogus event depends on the bytes:
+    # these (start counter, lengths) do on the code as found.
+    for c0, prelen, lens, quick in ((2**40 + 8, 4, [1], [(0, 4, 16), (0, 6, 20)]), (0, 0, [1], [(1, 5, 30), (1, 5, None)]),
+                                    (0, 0, [2, 1], [(1, 4, 30)])):
+        cap = 32
+        pre = [[3847, 900, prelen]]
+        tys = [t for t in LEGAL if t != 3847]
+        msgs = [[tys[i], 10 + i, lens[i % len(lens)]] for i in range(7)]
+        steps = _steps_list(cap, c0, pre, msgs)
+        cum = [0]
+        for st in steps:
+            cum.append(cum[-1] + st)
+        nt = cum[-1]
+        base = {'kind': 'conc', 'cap': cap, 'c0': c0, 'pre': pre, 'msgs': msgs, 'nrecv': 3}
+        fam = []
+        for j in range(len(msgs) - 1):
+            if steps[j] == 9:
+                for b in (4, 5, 6):
+                    for c in (list(range(14, 33)) + [nt]):
+                        if big or (j, b, c) in quick or (c == nt and (j, b, None) in quick):
+                            fam.append([0] * (cum[j] + 7) + [1] * b + [0] * c + [1] * 39 + [0] * nt)
+        for sc in fam:
+            cases.append(dict(base, sched=sc))
+    return cases
+
+
 def generate(rng, tier):
     big = tier == 'thorough'
     cases = _seq_cases(rng, big)
     cases += _lag_cases(rng, big)
     cases += _conc_cases(rng, big)
     cases += _wrap_cases(rng, big)
+    cases += _lapin_cases(rng, big)
     return cases
 
 
@@ -358,12 +473,12 @@ def _pre_coq(c):
 
 def model_expr(c, mode):
     if c['kind'] == 'seq':
-        return 'map show_obs (run_history %s W64 true %s %s %s %s)' % (mode_c(mode), z(c['cap']), z(c['c0']), _pre_coq(c), _ops_coq(c))
+        return 'map show_obs (run_history %s %s true %s %s %s %s)' % (mode_c(mode), version(), z(c['cap']), z(c['c0']), _pre_coq(c), _ops_coq(c))
     if c['kind'] == 'lag':
-        return 'map show_obs (jrun_history %s W64 true %s %s %s %s)' % (mode_c(mode), z(c['cap']), z(c['c0']), _pre_coq(c), _jops_coq(c))
+        return 'map show_obs (jrun_history %s %s true %s %s %s %s)' % (mode_c(mode), version(), z(c['cap']), z(c['c0']), _pre_coq(c), _jops_coq(c))
     if c['kind'] == 'conc':
-        return 'show_conc %s (run_conc %s W64 true %s %s %s %s %d%%nat %s)' % (
-            z(c['cap']), mode_c(mode), z(c['cap']), z(c['c0']), _msgs_coq(c['pre']), _msgs_coq(c['msgs']), c['nrecv'],
+        return 'show_conc %s (run_conc %s %s true %s %s %s %s %d%%nat %s)' % (
+            z(c['cap']), mode_c(mode), version(), z(c['cap']), z(c['c0']), _msgs_coq(c['pre']), _msgs_coq(c['msgs']), c['nrecv'],
             '[' + '; '.join(str(t) for t in c['sched']) + ']')
     raise ValueError(c)
 
@@ -388,20 +503,21 @@ _KC_CACHE = {}
 
 
 def known_class(c, mode, obs):
-    """lap-inside-receive-next: a receive_next committed a cursor that is not the position of a record of the stream
-    (ghost flag g_ok of Proofs/BroadcastThreadsProofs.v is false on this schedule) - exactly the runs C08_seqlock_partial excludes."""
-    if c.get('kind') != 'conc':
+    """lap-inside-receive-next: receive_next of the code without fixes/C08-receive-next-revalidate.diff read a header word
+    while a validation of the record it belongs to would have failed (ghost flag h_in of Proofs/BroadcastOrder.v is true
+    on this schedule) - exactly the runs C08_interleaved excludes.  The repaired code is never in the class
+    (C08_interleaved_repaired holds on every schedule)."""
+    if c.get('kind') != 'conc' or version() != 'W64':
         return None
     key = (json.dumps(c, sort_keys=True), mode)
     if key not in _KC_CACHE:
-        from vlib import core
-        fuel = 11 * (len(c['msgs']) + c['nrecv']) + 11
-        e = ('g_ok (grun %s %s true (ginit %s %s %s %s %d%%nat) (%s ++ repeat 0 %d%%nat ++ repeat 1 %d%%nat))' % (
+        fuel = 13 * (len(c['msgs']) + c['nrecv']) + 13
+        e = ('h_in (hrun %s %s true W64 (hinit %s %s %s %s %d%%nat) (%s ++ repeat 0 %d%%nat ++ repeat 1 %d%%nat))' % (
             z(c['cap']), mode_c(mode), z(c['cap']), z(c['c0']), _msgs_coq(c['pre']), _msgs_coq(c['msgs']), c['nrecv'],
             '[' + '; '.join(str(t) for t in c['sched']) + ']', fuel, fuel))
         tag = 'C08_kc_%s' % hashlib.sha1(key[0].encode()).hexdigest()[:12]
-        v = core.coq_eval(tag, IMPORTS + ' Require Import V.Proofs.BroadcastThreadsProofs.', [e])
-        _KC_CACHE[key] = (v[0] == ('app', 'false', []))
+        v = core.coq_eval(tag, IMPORTS + ' Require Import V.Proofs.BroadcastThreadsProofs. Require Import V.Proofs.BroadcastOrder.', [e])
+        _KC_CACHE[key] = (v[0] == ('app', 'true', []))
     return 'lap-inside-receive-next' if _KC_CACHE[key] else None
 
 
